@@ -59,16 +59,18 @@ def parsePk (alg : Txt) (n : Nat) (t : Txt) : Option (List UInt8) :=
   | none => none
   | some (a, rest) => if a = alg then unmarshalHex n rest else none
 
-/-- rhp/v4 `Account.UnmarshalText`: `hex.Decode(a[:], bytes.TrimPrefix(b, pfx))`,
-    no length guard (overlong input panics), short input → ErrUnexpectedEOF. -/
-def parseAccount4 (pfx : Txt) (n : Nat) (t : Txt) : Res (List UInt8) :=
+/-- rhp/v4 `Account.UnmarshalText`: `hex.Decode(a[:], bytes.TrimPrefix(b, pfx))`, short
+    input → ErrUnexpectedEOF.  `guard` says whether the source checks the length of the
+    hex text before decoding (generated fact `acct4HexGuarded`; as found: no, so an
+    over-long text is a run-time panic; with a guard it is an error). -/
+def parseAccount4 (guard : Bool) (pfx : Txt) (n : Nat) (t : Txt) : Res (List UInt8) :=
   let body := match stripPrefix pfx t with
     | some r => r
     | none => t
   match hexDecodeInto n body [] with
   | .ok bs => if bs.length < n then .err else .ok bs
   | .err => .err
-  | .panic => .panic
+  | .panic => if guard then .err else .panic
 
 /-! ## ChainIndex -/
 
@@ -95,8 +97,9 @@ def splitSep : Txt → Option (Txt × Txt)
       | none => none
 
 /-- `ChainIndex.UnmarshalText`: exactly one "::" (bytes.Split gives two parts),
-    ParseUint(…,10,64), then unguarded hex.Decode into the 32-byte id. -/
-def parseCi (n : Nat) (t : Txt) : Res ChainIndex :=
+    ParseUint(…,10,64), then hex.Decode into the 32-byte id — unguarded as found
+    (`guard = false`, generated fact `ciHexGuarded`): an over-long id panics. -/
+def parseCi (guard : Bool) (n : Nat) (t : Txt) : Res ChainIndex :=
   match splitSep t with
   | none => .err
   | some (a, b) =>
@@ -109,7 +112,7 @@ def parseCi (n : Nat) (t : Txt) : Res ChainIndex :=
         match hexDecodeInto n b [] with
         | .ok bs => if bs.length < n then .err else .ok ⟨h, bs⟩
         | .err => .err
-        | .panic => .panic
+        | .panic => if guard then .err else .panic
 
 /-! ## rhp/v4 ProtocolVersion -/
 
